@@ -210,6 +210,11 @@ class WriterExtractor:
             if v is None or isinstance(v, TagConst):
                 return v
         cenv = {k: v[1] for k, v in (env or {}).items() if v and v[0] == "const"}
+        # a helper parameter bound to the caller's self (the object being packed): its class constants are the caller's
+        from .fold import SelfRef
+        for k, v in (env or {}).items():
+            if v and v[0] == "self" and k not in ("self", "cls") and len(v) > 2 and not v[1]:
+                cenv[k] = SelfRef(v[2])
         try:
             v = self.folder.fold(e, fi.module, cenv, cls_q)
         except Unfoldable as ex:
